@@ -62,4 +62,8 @@ theorem visible_only_after_sync (w : Writer) (file : Bytes) (es : List (Nat × B
   C01.visible_only_after_sync w file es w' file' h hne
 theorem reads_gated_on_commit_index : Generated.readsGatedOnCommitIdx = true := by decide
 
+/-- T1: the writer attaches the finalizer only after the meta commit and the publication of the successor — the
+    order of the model's writer steps (`held → published → finSet`) -/
+theorem finalizer_attached_after_publish : Generated.finalizerAttachedAfterPublish = true := by decide
+
 end RaftWal.C06
